@@ -32,6 +32,7 @@ func runC17(w *World, r *Report) {
 	r.Rule("errprop", "errors of the lookup and of the width check reach the caller; no return is (nil, nil)", 4)
 	r.Rule("maskform", "the window mask helper yields exactly 'length ones starting at bit start' on every path", 1)
 	r.Rule("maskcheck", "a value with a bit outside the mask takes the error return", 1)
+	r.Rule("masksource", "the field's mask is produced only by the window-mask helper that maskform decides", 1)
 	r.Rule("convform", "the value converter hands the big integer exactly the argument's own value (no transformation per input shape)", 3)
 	convFormRule(w, r)
 	r.Rule("fresh", "the builders' helpers hand out no object held in package-level storage", 1)
@@ -266,6 +267,38 @@ func runC17(w *World, r *Report) {
 			}
 			return true
 		})
+		if maskObj != nil {
+			// masksource: the mask comes from the window-mask helper that maskform decides, on every path
+			rmf := w.Funcs["openflow13.rangeMask"]
+			nsrc, bad := 0, ""
+			inspectParts(func(n ast.Node) bool {
+				as, ok := n.(*ast.AssignStmt)
+				if !ok || len(as.Lhs) != len(as.Rhs) {
+					return true
+				}
+				for i, l := range as.Lhs {
+					if identObj(info, l) != maskObj {
+						continue
+					}
+					nsrc++
+					c, isCall := unparen(as.Rhs[i]).(*ast.CallExpr)
+					var fnc *types.Func
+					if isCall {
+						fnc, _ = typeutil.Callee(info, c).(*types.Func)
+					}
+					if fnc == nil || rmf == nil || fnc.Origin() != rmf.Obj {
+						bad = w.Pos(as.Pos()) + ": " + types.ExprString(as.Rhs[i])
+					}
+				}
+				return true
+			})
+			switch {
+			case bad != "":
+				r.Fail(VViolation, "masksource", nb.Key, "", npos, "the mask of the field is also produced by "+bad+", not by the window-mask helper openflow13.rangeMask whose closed form is decided: for the inputs taking that path the mask is whatever that expression yields (a 32-bit helper drops the bits above 31 instead of making the value check fail)")
+			case nsrc > 0:
+				r.OK("masksource", nb.Key, "", npos, fmt.Sprintf("every one of the %d assignments of the mask is a call of openflow13.rangeMask", nsrc), true)
+			}
+		}
 		if maskObj == nil || valueObj == nil {
 			r.Fail(VUndecided, "maskcheck", nb.Key, "", npos, "cannot identify the big integers that become the field's value and mask")
 		} else {
